@@ -27,6 +27,20 @@ func c12Scenario(c *vs.Case, kind string, fixed bool) *Scn {
 		s := GenScn(c, GenOpts{Kind: kind, AllowRolling: kind == "composite", AllowFinalize: false, ClusterParent: 1, MaxChildKinds: 2})
 		s.Cfg.SSA = false
 		s.Prog.Ordered = false
+		if kind == "composite" && c.Prob(1, 6) {
+			for i := range s.Cfg.Children {
+				if strings.HasPrefix(s.Cfg.Children[i].Method, "Rolling") {
+					s.Cfg.Children[i].Method = "InPlace" // rolling + server-side apply stalls (known finding of C01)
+				}
+			}
+			for i := range s.Prog.Children {
+				// a hook that hands metacontroller's own last-applied annotation back would itself re-apply what the
+				// migration removes: the end state then depends on the path taken, fault or no fault
+				s.Prog.Children[i].EchoAnnotations = false
+			}
+			s.SwitchToSSA = true
+			c.Class("switch-to-server-side-apply")
+		}
 		return s
 	}
 	method := c.PickStr("InPlace", "Recreate", "OnDelete", "RollingInPlace")
@@ -131,6 +145,12 @@ func runC12(scn *Scn, f Factory, seedTrace []int, fault FaultSpec, extra []Fault
 	for i := 0; i < 2; i++ {
 		if t := env.SyncFresh(); t.Panic != "" {
 			return nil, env, vs.Violf("C12/panic", "panic during setup: %s", t.Panic)
+		}
+	}
+	if scn.SwitchToSSA {
+		scn.Cfg.SSA = true
+		if err := env.Restart(); err != nil {
+			return nil, nil, fmt.Errorf("harness: %v", err)
 		}
 	}
 	// perturbation: the work step then has content updates, a delete, a create, an adoption and a release
